@@ -10,6 +10,8 @@ import json, os, subprocess, sys, shutil, glob, time, concurrent.futures as cf
 ENV = dict(os.environ, GOFLAGS="-mod=mod", GOPROXY="off", GOSUMDB="off", GOTOOLCHAIN="local")
 VERIF = os.environ.get("VERIF_DIR", "/verif")
 ROOT = "/tmp/seedrr"
+# signatures of the genuine defects repaired after the hook commit (KNOWN_FINDINGS.txt): present on the base tree
+FIXED_SINCE_BASE = ("panic/huge-source-string/", "panic/huge-bitmap/Rank128", "FromStr32/huge-string", "PathOf/huge-string", "panic/huge-string/", "panic/join-beyond-2^31-bits/", "panic/top-of-int32/", "ToArray(Of(l))!=l/top-of-int32", "Of/word-count/top-of-int32")
 
 
 def sh(cmd, cwd=None, env=ENV):
@@ -31,6 +33,15 @@ def one(meta_path):
         rc, o = sh(["git", "apply", "--unsafe-paths", "--directory=" + wt, os.path.join(d, "patch.diff")], cwd="/")
         if rc != 0:
             rc, o = sh(["patch", "-p1", "-i", os.path.join(d, "patch.diff")], cwd=wt)
+        on_base = False
+        if rc != 0 or m.get("evaluate_on_base"):
+            # written against the hook commit and overlapping a later fix: commit - re-run on that base + patch; the
+            # defects repaired since then are reported there as well and do not count
+            shutil.rmtree(wt, ignore_errors=True)
+            os.makedirs(wt)
+            subprocess.run("git -C /repo archive a3c7997 | tar -x -C %s" % wt, shell=True, check=True)
+            rc, o = sh(["patch", "-p1", "-s", "-i", os.path.join(d, "patch.diff")], cwd=wt)
+            on_base = True
         if rc != 0:
             res["status"] = "PATCH-DOES-NOT-APPLY"
             return res
@@ -39,8 +50,14 @@ def one(meta_path):
             rc, o = sh([os.path.join(VERIF, "check"), prop, tier], cwd=VERIF, env=dict(ENV, VERIF_REPO=wt, VERIF_OUT=out))
             res[tier] = {"exit": rc, "s": round(time.time() - t0, 1)}
             if rc == 1:
+                sigs = [l.split()[0][4:] for l in o.splitlines() if l.startswith("  sig=")]
+                if on_base:
+                    sigs = [x for x in sigs if not any(x.startswith(f) for f in FIXED_SINCE_BASE)]
+                    res["on_base"] = True
+                    if not sigs:
+                        continue
                 res["now"] = "./check %s %s" % (prop, tier)
-                res["sig"] = next((l.split()[0][4:] for l in o.splitlines() if l.startswith("  sig=")), "")
+                res["sig"] = sigs[0] if sigs else ""
                 break
             if rc not in (0, 1):
                 res["note"] = [l for l in o.splitlines() if l.startswith("INCONCLUSIVE")][:2]
